@@ -417,6 +417,11 @@ def analyse(run, res, answer):
     corr = []
     if res.get('not_inst'):
         corr.append('requests %s returned something else than what factory.instantiate(own environment) returned' % res['not_inst'])
+    unbound = [v for v in res['verdicts'] if v.get('index') == -1 and 'code' in v and 'thread' in v and 'req_pos' in v
+               and not v['what'].startswith('history did not')]
+    if unbound:
+        corr.append('served function not bound to the requester\'s own environment: %s (request %s,%s)'
+                    % (unbound[0]['what'], unbound[0]['thread'], unbound[0]['req_pos']))
     outcome_of = {}
     if lean is not None:
         l_eq = sorted(int(x) for x in lean.get('equal-code-ids', []))
